@@ -406,6 +406,7 @@ func main() {
 	fs.Parse(os.Args[2:])
 	os.MkdirAll(*out, 0o755)
 	var cases []*tcase
+	var magnets []*mcase
 	switch os.Args[1] {
 	case "gen":
 		g := &gen{r: cq.Rand()}
@@ -449,6 +450,7 @@ func main() {
 			g.add("random", rbytes(g.r, g.r.Intn(30)))
 		}
 		cases = g.cases
+		magnets = genMagnets(g.r, *n/2)
 	case "replay":
 		data, err := os.ReadFile(*casef)
 		if err != nil {
@@ -464,13 +466,18 @@ func main() {
 		} else {
 			json.Unmarshal(data, &c)
 		}
-		c.ID = 0
-		cases = []*tcase{&c}
+		if strings.HasPrefix(c.Kind, "magnet/") {
+			b, _ := hex.DecodeString(c.Input)
+			magnets = []*mcase{{ID: 0, Kind: c.Kind, Input: c.Input, Obs: runMagnet(string(b))}}
+		} else {
+			c.ID = 0
+			cases = []*tcase{&c}
+		}
 	}
-	finish(cases, *out)
+	finish(cases, magnets, *out)
 }
 
-func finish(cases []*tcase, out string) {
+func finish(cases []*tcase, magnets []*mcase, out string) {
 	classes := map[string]int{}
 	kinds := map[string]int{}
 	distinct := map[string]bool{}
@@ -515,10 +522,21 @@ func finish(cases []*tcase, out string) {
 		}
 	}
 	flush()
+	for _, c := range magnets {
+		b, _ := json.Marshal(c)
+		jf.Write(append(b, '\n'))
+		kinds[c.Kind]++
+		cl := c.Obs
+		if strings.HasPrefix(cl, "(MObsOk") {
+			cl = "MObsOk"
+		}
+		classes["magnet/"+cl]++
+	}
+	nshard = writeMagnetShards(out, nshard, magnets)
 	meta := map[string]interface{}{
-		"evaluations":         len(cases),
+		"evaluations":         len(cases) + len(magnets),
 		"distinct_nontrivial": len(distinct),
-		"rule":                "one evaluation = one byte string given to tor.ReadTorrent (then WriteTorrent + ReadTorrent again when accepted); distinct non-trivial = new (generator structure class incl. the hostile field, outcome class) among inputs that pass the outer dictionary test",
+		"rule":                "one evaluation = one byte string given to tor.ReadTorrent (then WriteTorrent + ReadTorrent again when accepted) or one string given to tor.ReadMagnet; distinct non-trivial = new (generator structure class incl. the hostile field, outcome class) among inputs that pass the outer dictionary test",
 		"outcome_classes":     classes,
 		"generator_kinds":     kinds,
 		"samples":             samples,
